@@ -466,6 +466,45 @@ theorem extended_activity_product_spec (IS : ℝ) (stoich z a : List ℝ) (T eps
   unfold extendedActivityProduct
   simp only [apTot2_ok _ _ _ _ _ h h', Nat.cast_zero, Nat.cast_one, zero_add, NumReal.exp_def, extendedLogGammaDC_eq]
 
+/-- **uncharged species** (z = 0): the limiting and the Davies law give ln γ = 0, the extended law keeps its linear term
+    ln γ = C·I/I₀ — a neutral species is NOT inert in the extended product unless C = 0 -/
+theorem neutral_species_log_gamma (IS a A B C I0 : ℝ) (_hI0 : I0 ≠ 0) (_hI : 0 ≤ IS / I0) :
+    limitingLogGamma IS 0 A I0 = 0 ∧ daviesLogGamma IS 0 A C I0 = 0 ∧ extendedLogGamma IS 0 a A B C I0 = C * (IS / I0) := by
+  rw [limitingLogGamma_eq, extendedLogGamma_eq, daviesLogGamma_eq]
+  simp
+
+/-- **activity products over stoichiometries with uncharged species and spectators**: a leading species with coefficient ν and
+    z = 0 contributes the factor `exp(ν·C·I)` to the extended product and the factor 1 to the limiting and Davies products; a
+    spectator (ν = 0, any charge) contributes 1 to all three.  (Position is immaterial: the exponent is a sum, see
+    `activity_product_spec`, `extended_activity_product_spec`, whose quantifier includes z = 0 and ν = 0.) -/
+theorem activity_product_neutral_species (IS nu z0 a0 : ℝ) (stoich z a : List ℝ) (T eps rho C : ℝ) (_hIS : 0 ≤ IS)
+    (h : stoich.length ≤ z.length) (h' : stoich.length ≤ a.length) :
+    extendedActivityProduct IS (nu :: stoich) (0 :: z) (a0 :: a) T eps rho C
+      = (extendedActivityProduct IS stoich z a T eps rho C).map (fun p => Real.exp (nu * (C * IS)) * p) ∧
+    limitingActivityProduct IS (nu :: stoich) (0 :: z) T eps rho = limitingActivityProduct IS stoich z T eps rho ∧
+    daviesActivityProduct IS (nu :: stoich) (0 :: z) T eps rho C = daviesActivityProduct IS stoich z T eps rho C ∧
+    extendedActivityProduct IS (0 :: stoich) (z0 :: z) (a0 :: a) T eps rho C = extendedActivityProduct IS stoich z a T eps rho C ∧
+    limitingActivityProduct IS (0 :: stoich) (z0 :: z) T eps rho = limitingActivityProduct IS stoich z T eps rho ∧
+    daviesActivityProduct IS (0 :: stoich) (z0 :: z) T eps rho C = daviesActivityProduct IS stoich z T eps rho C := by
+  have hl : (nu :: stoich).length ≤ ((0 : ℝ) :: z).length := by simpa using h
+  have hl' : (nu :: stoich).length ≤ (a0 :: a).length := by simpa using h'
+  have hz : ((0 : ℝ) :: stoich).length ≤ (z0 :: z).length := by simpa using h
+  have hz' : ((0 : ℝ) :: stoich).length ≤ (a0 :: a).length := by simpa using h'
+  have e1 := (neutral_species_log_gamma IS a0 (aNum eps T rho 1) (bNum eps T rho 1) C 1 one_ne_zero (by simpa using _hIS))
+  refine ⟨?_, ?_, ?_, ?_, ?_, ?_⟩
+  · rw [extended_activity_product_spec IS _ _ _ T eps rho C hl hl', extended_activity_product_spec IS _ _ _ T eps rho C h h']
+    simp only [List.zipWith3, List.sum_cons, e1.2.2, div_one, Except.map, Real.exp_add]
+  · rw [(activity_product_spec IS _ _ T eps rho C hl).1, (activity_product_spec IS _ _ T eps rho C h).1]
+    simp only [List.zipWith_cons_cons, List.sum_cons, e1.1, mul_zero, zero_add]
+  · rw [(activity_product_spec IS _ _ T eps rho C hl).2, (activity_product_spec IS _ _ T eps rho C h).2]
+    simp only [List.zipWith_cons_cons, List.sum_cons, e1.2.1, mul_zero, zero_add]
+  · rw [extended_activity_product_spec IS _ _ _ T eps rho C hz hz', extended_activity_product_spec IS _ _ _ T eps rho C h h']
+    simp only [List.zipWith3, List.sum_cons, zero_mul, zero_add]
+  · rw [(activity_product_spec IS _ _ T eps rho C hz).1, (activity_product_spec IS _ _ T eps rho C h).1]
+    simp only [List.zipWith_cons_cons, List.sum_cons, zero_mul, zero_add]
+  · rw [(activity_product_spec IS _ _ T eps rho C hz).2, (activity_product_spec IS _ _ T eps rho C h).2]
+    simp only [List.zipWith_cons_cons, List.sum_cons, zero_mul, zero_add]
+
 /-- a charge (or ion-size) sequence shorter than the stoichiometry is refused (`IndexError`), not padded -/
 theorem activity_product_index_error (IS : ℝ) (stoich z a : List ℝ) (T eps rho C : ℝ) (h : z.length < stoich.length) :
     limitingActivityProduct IS stoich z T eps rho = .error .indexError ∧
